@@ -1,4 +1,6 @@
 #include "sundials_shim.h"
+#include <math.h>
+#include <stdlib.h>
 #include <stdarg.h>
 #include <string.h>
 #include <vector>
@@ -51,14 +53,26 @@ int SUNMatZero(SUNMatrix A) {
     return 0;
 }
 void SUNMatDestroy(SUNMatrix A) { if (!A) return; delete[] A->data; delete[] A->indexptrs; delete[] A->indexvals; delete A; }
-sunindextype *SUNSparseMatrix_IndexPointers(SUNMatrix A) { return A->indexptrs; }
-sunindextype *SUNSparseMatrix_IndexValues(SUNMatrix A) { return A->indexvals; }
-realtype *SUNSparseMatrix_Data(SUNMatrix A) { return A->data; }
+// the accessors of one matrix kind applied to the other kind read memory that is not what they think it is (in SUNDIALS
+// the content structs differ): the shim stops the program so that the harness sees it
+static void shim_kind(SUNMatrix A, int want_sparse, const char *who) {
+    if (!A || A->sparse != want_sparse) {
+        fprintf(stderr, "shim: %s applied to a %s matrix\n", who, !A ? "null" : A->sparse ? "sparse" : "dense");
+        exit(4);
+    }
+}
+sunindextype *SUNSparseMatrix_IndexPointers(SUNMatrix A) { shim_kind(A, 1, "SUNSparseMatrix_IndexPointers"); return A->indexptrs; }
+sunindextype *SUNSparseMatrix_IndexValues(SUNMatrix A) { shim_kind(A, 1, "SUNSparseMatrix_IndexValues"); return A->indexvals; }
+realtype *SUNSparseMatrix_Data(SUNMatrix A) { shim_kind(A, 1, "SUNSparseMatrix_Data"); return A->data; }
 
 SUNLinearSolver SUNLinSol_Dense(N_Vector y, SUNMatrix A, SUNContext) {
+    if (A) shim_kind(A, 0, "SUNLinSol_Dense");
     SUNLinearSolver S = new _shim_SUNLinearSolver; S->kind = 0; S->n = A ? A->M : (y ? y->length : 0); S->piv = NULL; return S;
 }
-SUNLinearSolver SUNLinSol_KLU(N_Vector y, SUNMatrix A, SUNContext c) { SUNLinearSolver S = SUNLinSol_Dense(y, NULL, c); S->kind = 1; S->n = A->M; return S; }
+SUNLinearSolver SUNLinSol_KLU(N_Vector y, SUNMatrix A, SUNContext c) {
+    shim_kind(A, 1, "SUNLinSol_KLU");
+    SUNLinearSolver S = SUNLinSol_Dense(y, NULL, c); S->kind = 1; S->n = A->M; return S;
+}
 int SUNLinSolSetup(SUNLinearSolver, SUNMatrix) { return 0; }
 // Gaussian elimination with partial pivoting on a copy (dense only)
 int SUNLinSolSolve(SUNLinearSolver, SUNMatrix A, N_Vector x, N_Vector b, realtype) {
@@ -86,12 +100,13 @@ int SUNLinSolSolve(SUNLinearSolver, SUNMatrix A, N_Vector x, N_Vector b, realtyp
 int SUNLinSolFree(SUNLinearSolver S) { delete S; return 0; }
 
 // ------------------------------------------------------------------ scripted CVODE
-struct ShimCV { double t; N_Vector y; };
+struct ShimCV { double t; N_Vector y; CVLsJacFn jac; SUNMatrix A; SUNLinearSolver ls; void *udata; };
 static std::vector<ShimOutcome> g_cv; static std::vector<int> g_reinit; static size_t g_icv = 0, g_ire = 0;
 void shim_set_script(const ShimOutcome *cv, int ncv, const int *reinit, int nreinit) {
     g_cv.assign(cv, cv + ncv); g_reinit.assign(reinit, reinit + nreinit); g_icv = 0; g_ire = 0;
 }
-void *CVodeCreate(int, SUNContext) { ShimCV *m = new ShimCV; m->t = 0; m->y = NULL; shim_trace("create\n"); return m; }
+void *CVodeCreate(int, SUNContext) { ShimCV *m = new ShimCV; m->t = 0; m->y = NULL; m->jac = NULL; m->A = NULL; m->ls = NULL; m->udata = NULL;
+    shim_trace("create\n"); return m; }
 int CVodeSetErrFile(void *, FILE *) { return 0; }
 int CVodeSetMaxNumSteps(void *, long int) { return 0; }
 int CVodeInit(void *mem, CVRhsFn, realtype t0, N_Vector y0) { ShimCV *m = (ShimCV *)mem; m->t = t0; m->y = y0; shim_trace("init %.17g\n", t0); return 0; }
@@ -103,15 +118,37 @@ int CVodeReInit(void *mem, realtype t0, N_Vector y0) {
     m->t = t0; m->y = y0; return 0;
 }
 int CVodeSStolerances(void *, realtype, realtype) { return 0; }
-int CVodeSetLinearSolver(void *, SUNLinearSolver, SUNMatrix) { return 0; }
-int CVodeSetJacFn(void *, CVLsJacFn) { return 0; }
-int CVodeSetUserData(void *, void *) { return 0; }
+int CVodeSetLinearSolver(void *mem, SUNLinearSolver ls, SUNMatrix A) {
+    if (ls && A && ls->kind != A->sparse) { fprintf(stderr, "shim: linear solver kind %d attached to a %s matrix\n", ls->kind, A->sparse ? "sparse" : "dense"); exit(4); }
+    ((ShimCV *)mem)->ls = ls; ((ShimCV *)mem)->A = A; return 0;
+}
+int CVodeSetJacFn(void *mem, CVLsJacFn jac) { ((ShimCV *)mem)->jac = jac; return 0; }
+int CVodeSetUserData(void *mem, void *data) { ((ShimCV *)mem)->udata = data; return 0; }
+// what the integrator does with the Jacobian function at (at least) the first step of every call: have it fill the attached
+// matrix, then use the matrix.  A sparse matrix must come back as a valid CSR structure inside the allocated sizes.
+static void shim_fill_jacobian(ShimCV *m, N_Vector y) {
+    if (!m->jac || !m->A) return;
+    SUNMatZero(m->A);
+    m->jac(m->t, y, NULL, m->A, m->udata, NULL, NULL, NULL);
+    if (!m->A->sparse) return;
+    SUNMatrix A = m->A;
+    const char *bad = NULL;
+    if (A->indexptrs[0] != 0) bad = "row pointers do not start at 0";
+    for (sunindextype r = 0; r < A->M && !bad; r++) {
+        if (A->indexptrs[r] > A->indexptrs[r + 1]) bad = "row pointers decrease";
+        else if (A->indexptrs[r + 1] > A->NNZ) bad = "row pointer beyond the allocated non-zeros";
+        else for (sunindextype k = A->indexptrs[r]; k < A->indexptrs[r + 1]; k++)
+            if (A->indexvals[k] < 0 || A->indexvals[k] >= A->N) bad = "column index outside the matrix";
+    }
+    if (bad) { fprintf(stderr, "shim: Jac() left an invalid CSR matrix: %s\n", bad); exit(5); }
+}
 // mock dynamics: every component advances by the elapsed time, y(t) = y(t_start) + (t - t_start)
 int CVode(void *mem, realtype tout, N_Vector yout, realtype *tret, int) {
     ShimCV *m = (ShimCV *)mem;
     ShimOutcome o; o.flag = 0; o.frac = 1.0;
     if (g_icv < g_cv.size()) o = g_cv[g_icv];
     g_icv++;
+    shim_fill_jacobian(m, yout);
     double target = o.flag >= 0 ? tout : m->t + o.frac * (tout - m->t);
     for (sunindextype i = 0; i < yout->length; i++) yout->data[i] += target - m->t;
     shim_trace("cvode tout=%.17g from=%.17g reached=%.17g flag=%d\n", tout, m->t, target, o.flag);
